@@ -115,6 +115,7 @@ class Agg:
         self.max_depth = 0
         self.shards = 0
         self.cpu_s = 0.0
+        self.known = {}
 
     def add(self, d, count_cut=False):
         self.paths += d["paths"] - d["cut"]
@@ -131,6 +132,8 @@ class Agg:
         if len(self.samples) < 4:
             self.samples.extend(d["samples"][:1])
         self.violations.extend(d["violations"])
+        for kid, vals in d.get("known", {}).items():
+            self.known.setdefault(kid, vals)
         if not d["exhausted"]:
             self.exhausted = False
         self.funcs.update(tuple(f) for f in d["funcs"])
@@ -240,6 +243,8 @@ def do_replay(path, quiet=False):
     outcome, what, detail, api = symx.run_concrete(h.fn, body["values"])
     if outcome == "violation":
         print("replay: the oracle of %s fails on the real code: %s" % (pid, what))
+        if isinstance(detail, dict) and detail.get("known_class"):
+            print("KNOWN-CLASS %s" % detail["known_class"])
         if detail and not quiet:
             print(detail if isinstance(detail, str) else json.dumps(detail, indent=1, default=str))
         if not quiet:
@@ -287,6 +292,8 @@ def main(argv=None):
     if hasattr(mod, "run_check"):       # properties with their own driver (C20-L: CrossHair)
         return mod.run_check(tier, seed, log, args)
     known = [k for k in load_known() if k["property"] == pid]
+    os.environ["VERIF_KNOWN"] = ",".join(sorted({k["id"] for k in known if k.get("status") == "open"
+                                                 and k.get("class") == "history"}))
     hs = mod.harnesses(tier)
     if args.only:
         hs = [h for h in hs if h.name == args.only]
@@ -314,6 +321,21 @@ def main(argv=None):
         for h in hs:
             agg = explore_parallel(pool, pid, tier, h, deadline, seed, log)
             aggs[h.name] = agg
+            for kid, vals in agg.known.items():
+                kf = [k for k in known if k["id"] == kid][0]
+                path = write_replay(pid, tier, h.name, {"what": "representative of known finding " + kid,
+                                                        "values": vals})
+                code, out = replay_external(path)
+                if code == EXIT_VIOLATION and ("KNOWN-CLASS %s" % kid) in out:
+                    line = "KNOWN-FINDING: property=%s %s" % (pid, kf["what"])
+                    if line not in known_lines:
+                        known_lines.append(line)
+                        log(line)
+                    log("  (%d path(s) of %s attributed to %s by its trace predicate; representative replayed)"
+                        % (agg.notes.get("known:" + kid, 0), h.name, kid))
+                    os.remove(path)
+                else:
+                    harness_error = (h, {"what": "representative of %s does not reproduce as such" % kid}, path, out)
             for v in agg.violations:
                 path = write_replay(pid, tier, h.name, v)
                 code, out = replay_external(path)
